@@ -230,55 +230,23 @@ def styleFor (s : Style K) (p : PathRef K) : Style K :=
   { s with dashes := (cd s.dashOff s.dashes p.len).1,
            stroke := if (cd s.dashOff s.dashes p.len).2 then s.stroke else Paint.none }
 
-/-- full statement: in `DrawPath(x, y, p₁ … pₙ)` every path is drawn with the current style -/
-def draw_style_statement : Prop :=
-  ∀ (cd : K → List K → K → List K × Bool) (s : Style K) (m : Mat K) (pre post : List (PathRef K)) (p : PathRef K),
-    (loopCalls (opsK tr cd) s.dashOff s.dashes m s (pre ++ p :: post))[pre.length]? = some ⟨.path p (styleFor cd s p), m⟩
+/-- In `DrawPath(x, y, p₁ … pₙ)` every path is drawn with the current style (dash pattern as
+canonicalised by `checkDash` for that path), whatever `checkDash` says about the other paths of the
+same call: the renderer calls are exactly one per path, in order. -/
+theorem draw_style_loop (s : Style K) (m : Mat K) (ps : List (PathRef K)) :
+    loopCalls (opsK tr cd) s.dashOff s.dashes m s ps = ps.map (fun p => ⟨.path p (styleFor cd s p), m⟩) := by
+  induction ps with
+  | nil => rfl
+  | cons p ps ih => simp only [loopCalls, List.map_cons, ih]; rfl
 
-/-- proved part: true for every path up to and including the first one for which `checkDash`
-reports "no ink" (in particular for single-path draws) -/
-theorem draw_style_partial (s : Style K) (m : Mat K) (pre post : List (PathRef K)) (p : PathRef K)
-    (hok : ∀ q ∈ pre, (cd s.dashOff s.dashes q.len).2 = true) :
-    (loopCalls (opsK tr cd) s.dashOff s.dashes m s (pre ++ p :: post))[pre.length]? = some ⟨.path p (styleFor cd s p), m⟩ := by
-  -- generalise the carried style: it agrees with `s` except for `dashes`
-  suffices H : ∀ (s' : Style K), s'.fill = s.fill → s'.stroke = s.stroke → s'.width = s.width → s'.cap = s.cap →
-      s'.join = s.join → s'.dashOff = s.dashOff → s'.rule = s.rule →
-      (loopCalls (opsK tr cd) s.dashOff s.dashes m s' (pre ++ p :: post))[pre.length]? = some ⟨.path p (styleFor cd s p), m⟩ from
-    H s rfl rfl rfl rfl rfl rfl rfl
-  induction pre with
-  | nil =>
-    intro s' h1 h2 h3 h4 h5 h6 h7
-    cases s'; cases s
-    simp_all [loopCalls, styleFor, opsK]
-  | cons q pre ih =>
-    intro s' h1 h2 h3 h4 h5 h6 h7
-    have hq := hok q (List.mem_cons_self ..)
-    simp only [List.cons_append, loopCalls, List.length_cons, List.getElem?_cons_succ]
-    apply ih (fun r hr => hok r (List.mem_cons_of_mem _ hr))
-    all_goals simp_all [opsK]
-
-/-- defect witness (known finding C15-drawpath-multi-stroke): a path that `checkDash` leaves without
-ink clears the stroke paint for every later path of the same `DrawPath` call. -/
-theorem draw_style_statement_false : ¬ draw_style_statement (K := K) tr := by
-  intro h
-  have := h (fun _ _ len => ([], decide (len ≠ 0)))
-    ⟨Paint.none, Paint.color 255 0 0 255, 1, 0, 0, 0, [], 0⟩ C07.ident [⟨1, 0, ⟨0, 0, 0, 0⟩⟩] [] ⟨2, 1, ⟨0, 0, 0, 0⟩⟩
-  simp [loopCalls, styleFor, opsK, Paint.none, Paint.color] at this
-
-/-- integer instance of the dash arithmetic, for concrete witnesses -/
-def arithZ : Arith Int :=
-  { zero := 0, one := 1, two := 2, half := 0, neg := Int.neg, add := Int.add, sub := Int.sub, mul := Int.mul,
-    div := Int.tdiv, lt := fun a b => decide (a < b), le := fun a b => decide (a ≤ b),
-    beq := fun a b => decide (a = b), equal := fun a b => decide (a = b), trunc := id }
-
-/-- defect witness (known finding C15-checkdash-sign) on the model of `Path.checkDash` that the
-correspondence ties to the code: dashes 8 on / 12 off, offset 15 (7 into the gap, 5 of it left); a
-path of length 6 reaches the next dash (ink on its last unit) but is reported "no stroke" … -/
-theorem checkdash_gap_witness : checkDashImpl arithZ 15 [8, 12] 6 = ([], false) := by decide
-
-/-- … and with offset 4 (4 into the first dash, 4 of it left) a path of length 10 extends 6 units into
-the gap but is reported "first dash covers the whole path" (solid stroke). -/
-theorem checkdash_dash_witness : checkDashImpl arithZ 4 [8, 12] 10 = ([], true) := by decide
+theorem draw_style (c : Ctx K) (x y : K) (ps : List (PathRef K)) (hv : visible tr cd c = true) :
+    drawCalls (opsK tr cd) (.drawPath x y ps) c =
+      ps.map (fun p => ⟨.path p (styleFor cd c.st.style p), baseK tr cd c x y⟩) := by
+  unfold visible at hv
+  simp only [drawCalls]
+  split
+  · rename_i h; simp_all
+  · rw [baseK_eq]; exact draw_style_loop tr cd c.st.style _ ps
 
 /-- DrawText: the extra reflections cancel the coordinate system's flips — the text is anchored at
 `CoordSystemView × View × CoordView·(x,y)` and, in every coordinate system, for the identity view
